@@ -48,6 +48,7 @@ Predict(e) ==
       [] e.ev = "spayload" -> LET r == DoSPayload(ww, e.id, e.ptag, e.plen) IN [w |-> r.w, v |-> [ok |-> r.ev.ok, d |-> DView(r.ev.d), snap1 |-> r.ev.snap1]]
       [] e.ev = "sdisconnect" -> LET r == DoSDisconnect(ww, e.id) IN [w |-> r.w, v |-> [res |-> r.ev.res, d |-> DView(r.ev.d), snap1 |-> r.ev.snap1]]
       [] e.ev = "cdisconnect" -> LET r == DoCDisconnect(ww, e.c) IN [w |-> r.w, v |-> [d |-> DView(r.ev.d), cs1 |-> r.ev.cs1]]
+      [] e.ev = "setmax" -> LET r == DoSetMax(ww, e.n) IN [w |-> r.w, v |-> [snap1 |-> r.ev.snap1]]
 
 Recorded(e) ==
     CASE e.ev = "sdeliver" -> [res |-> e.res, reply |-> DView(e.reply), snap1 |-> e.snap1]
@@ -58,8 +59,9 @@ Recorded(e) ==
       [] e.ev = "spayload" -> [ok |-> e.ok, d |-> DView(e.d), snap1 |-> e.snap1]
       [] e.ev = "sdisconnect" -> [res |-> e.res, d |-> DView(e.d), snap1 |-> e.snap1]
       [] e.ev = "cdisconnect" -> [d |-> DView(e.d), cs1 |-> e.cs1]
+      [] e.ev = "setmax" -> [snap1 |-> e.snap1]
 
-Known(e) == e.ev \in {"sdeliver", "cdeliver", "cupdate", "supdate", "cpayload", "spayload", "sdisconnect", "cdisconnect"}
+Known(e) == e.ev \in {"sdeliver", "cdeliver", "cupdate", "supdate", "cpayload", "spayload", "sdisconnect", "cdisconnect", "setmax"}
 
 SNext == /\ l <= Len(Rec)
          /\ l' = l + 1
